@@ -32,17 +32,29 @@ SPEC = {
              "body / var/jsonpath before or after an assert) shot 1-5 times by one instance; the scripted target makes one request of "
              "some invocations carry a status or a body that the step's assertion rejects; the phout sample stream must be exactly one "
              "sample per executed step, tagged <scenario>.<step name>, completed steps with the status received, the failed step "
-             "reported as failed, nothing after it; non-trivial = a step failed by a postprocessor. TestIDsUnique: a real uri provider (streaming or preloaded) with limit 2000 / 20000 / 60000 is drained by 2-16 goroutines "
+             "reported as failed, nothing after it; one bad answer in three is a REDIRECT: the same body under status 301 / 302 / 303 / 307 / 308 "
+             "with a Location header that is absent, empty, well-formed or not parsable as a URL (same pools as TestHTTPSamples) - the "
+             "gun does not follow redirects (`redirect` is false by default), so the step was executed and answered: its sample carries "
+             "that status, the invocation goes on, and only a status assertion rejects it; non-trivial = a step failed by a "
+             "postprocessor or was answered with a redirect status. TestIDsUnique: a real uri provider (streaming or preloaded) with limit 2000 / 20000 / 60000 is drained by 2-16 goroutines "
              "calling Acquire/Release as fast as they can (where the ids are issued); every id must occur once; non-trivial = >= 4 "
              "consumers and >= 20000 ammo. TestHTTPSamples: rapid-generated ammo (uri / uripost / raw / http-json written one object per line, as pretty-printed objects, "
-             "or as one JSON array - the six layouts equally likely; 1-8 entries with 0-5 path elements, tagged or not) x provider streaming or "
+             "or as one JSON array - the six layouts equally likely; 1-8 entries with 0-5 path elements, tagged or not "
+             "- a tag in three is several words, separated by single spaces, sometimes a run of spaces or a tab, as in pandora's own uri test "
+             "('some tag'): every format takes the rest of the line behind the delimiting blank, or a JSON string, as the tag) x provider streaming or "
              "with preload x bounds {passes 1-3, a limit of 1..3n with the default unlimited passes, both; at most 24 shots} x scripted "
-             "target answers (any status 200-599; connection reset, response-header timeout, body shorter than Content-Length, chunked body "
+             "target answers (any status 200-599, one in six a redirect status 301 / 302 / 303 / 307 / 308; a Location header on the answer: "
+             "most redirect answers carry one - half of them a value that url.Parse rejects ('http://[::1', '/next%zz', 'http://exa mple.org/', "
+             "':next', 'http://host:port/x', '%', ...), the others a well-formed one, an empty one or none - and one other answer in four "
+             "does too; the guns run with `redirect: false`, written out or left at its default, so the answer is the result of the shot "
+             "whatever its status and its Location say: proto code = status received, net code 0; connection reset, response-header timeout, body shorter than Content-Length, chunked body "
              "that ends inside a chunk - the last two fail after status line and headers have arrived; target "
              "refusing connections) x auto-tag {enabled, uri-elements 1-3, no-tag-only} x 1-8 instances x what the run logs on the side: "
              "the engine's (and so every bound gun's) logger drops everything / takes info / takes debug messages (`log: level: debug`: "
              "the gun logs every request and response with its body) x the gun's `answlog` not enabled / enabled with filter all, "
-             "warning, error (a real file) - the codes of a sample are the same at every log level; real http gun, real provider, real engine "
+             "warning, error (a real file) - the codes of a sample are the same at every log level; x gun kind http (half of the cases) / connect (through a CONNECT tunnel of the recording target) / http2 (TLS target "
+             "speaking HTTP/2; failure kinds there: stream reset without an answer, header timeout, stream reset after headers and a first "
+             "piece of the body); real guns, real provider, real engine "
              "instances (which Release every ammo after its shot), real phout aggregator with ids, pool built by config.DecodeAndValidate; "
              "the k-th ammo is entry k mod n, so the multiset of (tag, proto code, net code == 0) parsed from the phout file is compared with "
              "the model over all min(limit, passes x n) shots - an entry shot on a later pass must carry its tag and reach the target under "
@@ -50,7 +62,11 @@ SPEC = {
              "layout_<layout>_{stream,preload}, reshot_<layout>_{stream,preload} (more shots than entries: entries are shot again after "
              "their ammo was released), reshot_by_passes / reshot_by_limit_with_unlimited_passes, third_pass_entered, log_level_*, answlog_enabled, "
              "body_cut_after_headers_{debug_log, info_log, answ_logged, debug_log_and_answ_logged, nothing_logged}[_short_body|_short_chunked] "
-             "(once per case: an entry whose body is cut was shot at that log level / was dumped by the answ log). TestGRPCCodes: every case "
+             "(once per case: an entry whose body is cut was shot at that log level / was dumped by the answ log), gun_{http,connect,http2}, "
+             "redirect_answered[_gun_*], redirect_location_{absent,empty,wellformed,malformed}, redirect_<status>_location_malformed, "
+             "redirect_location_malformed_{gun_*, redirect_false_written, redirect_left_at_default, debug_log, answ_logged}, "
+             "location_{malformed,wellformed}_on_other_status (once per case: such an entry was shot and answered in full), "
+             "tag_of_several_words[_<format>], tag_with_tab_or_run_of_spaces, tag_of_several_words_with_auto_tag_appended. TestGRPCCodes: every case "
              "enumerates all gRPC status codes 0..16 (plus generated out-of-range values) returned by a recording TargetService; the "
              "sample's proto code must equal the table in docs/eng/grpc-generator.md as transcribed into the harness. Non-trivial = a "
              "non-2xx status, a failure kind, auto-tag on, or >= 2 instances (HTTP); every gRPC case; distinct = hash of the case."),
@@ -60,8 +76,29 @@ SPEC = {
                          'TestHTTPSamples/reshot_tagged_jsonline_lines_stream', 'TestHTTPSamples/reshot_tagged_jsonline_lines_preload',
                          'TestHTTPSamples/reshot_tagged_jsonline_pretty_stream', 'TestHTTPSamples/reshot_tagged_jsonline_pretty_preload',
                          'TestHTTPSamples/reshot_tagged_jsonline_array_stream', 'TestHTTPSamples/reshot_tagged_jsonline_array_preload',
-                         'TestHTTPSamples/reshot_by_limit_with_unlimited_passes_jsonline_array_stream'],
-    "floors": {"TestHTTPSamples/status_3xx": 0.1, "TestHTTPSamples/status_4xx": 0.1, "TestHTTPSamples/status_5xx": 0.1,
+                         'TestHTTPSamples/reshot_by_limit_with_unlimited_passes_jsonline_array_stream',
+                         'TestHTTPSamples/redirect_301_location_malformed', 'TestHTTPSamples/redirect_302_location_malformed',
+                         'TestHTTPSamples/redirect_303_location_malformed', 'TestHTTPSamples/redirect_307_location_malformed',
+                         'TestHTTPSamples/redirect_308_location_malformed'],
+    "floors": {"TestHTTPSamples/gun_http": 0.25, "TestHTTPSamples/gun_connect": 0.09, "TestHTTPSamples/gun_http2": 0.1,
+               "TestHTTPSamples/redirect_answered": 0.13, "TestHTTPSamples/redirect_location_malformed": 0.055,
+               "TestHTTPSamples/redirect_location_absent": 0.04, "TestHTTPSamples/redirect_location_wellformed": 0.035,
+               "TestHTTPSamples/redirect_location_empty": 0.018, "TestHTTPSamples/redirect_location_malformed_gun_http": 0.025,
+               "TestHTTPSamples/redirect_location_malformed_gun_connect": 0.01, "TestHTTPSamples/redirect_location_malformed_gun_http2": 0.015,
+               "TestHTTPSamples/redirect_location_malformed_redirect_false_written": 0.025,
+               "TestHTTPSamples/redirect_location_malformed_redirect_left_at_default": 0.03,
+               "TestHTTPSamples/redirect_location_malformed_debug_log": 0.018, "TestHTTPSamples/redirect_location_malformed_answ_logged": 0.016,
+               "TestHTTPSamples/location_malformed_on_other_status": 0.08,
+               "TestHTTPSamples/tag_of_several_words": 0.2, "TestHTTPSamples/tag_of_several_words_raw": 0.027,
+               "TestHTTPSamples/tag_of_several_words_uri": 0.035, "TestHTTPSamples/tag_of_several_words_uripost": 0.025,
+               "TestHTTPSamples/tag_of_several_words_jsonline": 0.09, "TestHTTPSamples/tag_with_tab_or_run_of_spaces": 0.085,
+               "TestHTTPSamples/tag_of_several_words_with_auto_tag_appended": 0.04,
+               "TestScenarioSamples/step_answered_with_redirect": 0.2, "TestScenarioSamples/step_answered_with_redirect_location_malformed": 0.09,
+               "TestScenarioSamples/step_answered_with_redirect_location_malformed_not_rejected": 0.06,
+               "TestScenarioSamples/step_answered_with_redirect_location_malformed_not_rejected_before_last_step": 0.035,
+               "TestScenarioSamples/step_answered_with_redirect_location_absent": 0.08,
+               "TestScenarioSamples/step_answered_with_redirect_location_wellformed": 0.06,
+               "TestHTTPSamples/status_3xx": 0.1, "TestHTTPSamples/status_4xx": 0.1, "TestHTTPSamples/status_5xx": 0.1,
                "TestHTTPSamples/fail_reset": 0.1, "TestHTTPSamples/fail_timeout": 0.1, "TestHTTPSamples/fail_short_body": 0.1,
                "TestHTTPSamples/fail_refused": 0.04, "TestHTTPSamples/fail_short_chunked": 0.1,
                "TestHTTPSamples/log_level_debug": 0.2, "TestHTTPSamples/log_level_info": 0.15, "TestHTTPSamples/log_level_none": 0.15,
@@ -94,9 +131,10 @@ SPEC = {
         "technique": "model-based property testing (rapid) through the real guns and the real phout aggregator against scripted recording targets; documentation-transcribed table oracle for gRPC codes",
         "text": ("Samples are read where users read them (phout lines). HTTP: exactly one sample per fired request; proto code = status "
                  "received else 0; net code 0 iff a response was completely received (a body cut short after the headers - by length or inside "
-                 "a chunk - is a failed exchange: status as proto code, non-zero net code), whatever the log level and the answ log setting; tag = ammo tag / auto-tag of the first n path "
+                 "a chunk - is a failed exchange: status as proto code, non-zero net code), whatever the log level and the answ log setting, whichever gun (http, connect, http2) fired it, and whatever the answer's status and "
+                 "Location header are - with `redirect: false` a 301/302/303/307/308 is reported as received, also when its Location is missing or no URL; tag = ammo tag / auto-tag of the first n path "
                  "elements (appended with '|' when the ammo is tagged and no-tag-only is off) / __EMPTY__ (also when auto-tag is on and the URI has no path to take elements from); ids unique across instances; "
-                 "all of it for every ammo layout (uri, uripost, raw, http/json as lines / pretty objects / one array), streamed or preloaded, also for entries shot "
+                 "a tag of several words is reported whole; all of it for every ammo layout (uri, uripost, raw, http/json as lines / pretty objects / one array), streamed or preloaded, also for entries shot "
                  "again on a second and third pass (by `passes` or by a limit above the file's length) after the engine released their ammo. "
                  "gRPC: proto code equals the documented mapping for all 17 defined codes and 500 for anything else; the tag is the one written "
                  "on the entry's own line, __EMPTY__ for a line without one, also once the provider recycles its ammo objects; a "
